@@ -532,7 +532,12 @@ func paceJudge(sc paceScenario, res *paceResult) {
 			res.counters["failures_with_reset_during_attempt"]++
 		}
 		lo, _ := sc.window(nLo)
+		// the real count lies somewhere in [0, nHi]; with base > max the n=0
+		// delay (the base itself) is the largest, so take the larger upper end
 		_, hi := sc.window(nHi)
+		if _, h0 := sc.window(0); h0 > hi {
+			hi = h0
+		}
 		slackLo := lo*1e-9 + 2
 		slackHi := hi*1e-9 + 2
 		if !resetInGap {
